@@ -238,6 +238,8 @@ def result_shape(ex, st):
     if d == 1:
         e = payload(ex, st, r, 1, 0, 'state_machine::UpdateCheckError')
         return ('Err', dval(ex, st, ex.discr_of(st, e).t))
+    if d is None:
+        return ('undecided',)
     tup = payload(ex, st, r, 0, 0, None)
     resp = ex.child(st, tup, 0, 'update_check::Response')
     rb = ex.child(st, tup, 1, 'RebootAfterUpdate<IR>')
